@@ -122,8 +122,8 @@ def scenarios(ctx):
         out.append(Std('pubsub-ka-%s' % mode, profile='pubsub', mode=mode,
                        init=(('connect', 0, False, 2, 4), ('connack', 0, 0, False)),
                        reconnects=[(False, 2, 4)], pub_qos=(2,), api_after_close=True,
-                       budgets=dict(pub=1, sub=1, ack=2, tick=3, lose=1, disconnect=1, inpub=1, inrel=1, rebuild=1,
-                                    connect=1, connack=1),
+                       budgets=dict(pub=1, sub=1, ack=1 if q else 2, tick=2 if q else 3, lose=1, disconnect=1, inpub=1, inrel=1,
+                                    rebuild=1, connect=1, connack=1),
                        inpubs=inp[1:], inrels=((2,),), closing=False))
     return out
 
